@@ -149,7 +149,7 @@ OnDeliver(m, e) ==
       cn == m.conns[c]
       (* bytes that are not (yet) a complete, well-framed V3 packet - the first part of a reply that TCP delivers in two segments, or a reply
          cut off by the transport - complete nothing: the reader keeps waiting (C04); whatever follows them is judged with them *)
-      fragment == Ver = 3 /\ e.m = "OTHER" /\ "obs" \in DOMAIN e /\ e.obs.ty = -1 /\ e.obs.ln > 0
+      fragment == Ver = 3 /\ ((e.m = "OTHER" /\ "obs" \in DOMAIN e /\ e.obs.ty = -1 /\ e.obs.ln > 0) \/ e.m = "NOISE")
       awaited0 == e.live /\ m.call.op # "none" /\ m.call.awaiting /\ c = m.cur
       awaited == awaited0 /\ ~fragment
       isResp == awaited /\ m.call.op = "send" /\ m.call.tx > 0 /\ e.gen /\ e.m \in {"ENC", "PKT"} /\ (Ver = 2 \/ e.k = m.call.lastk)
@@ -168,7 +168,7 @@ OnDeliver(m, e) ==
                                    !.resp = @ \/ isResp,
                                    !.genuine = @ \/ (genHS /\ awaited),
                                    !.benign = @ /\ awaited /\ e.gen,
-                                   !.fault = @ \/ (e.live /\ (e.m \in {"OTHER", "ERR"} \/ ~e.gen)),
+                                   !.fault = @ \/ (e.live /\ (e.m \in {"OTHER", "ERR", "NOISE"} \/ ~e.gen)),
                                    !.silent = FALSE]
   IN [ m EXCEPT !.conns[c] = cn2, !.call = call2, !.fly = IF @ > 0 THEN @ - 1 ELSE 0,
                 !.devfault = @ \/ (e.live /\ (e.m \in {"OTHER", "ERR"} \/ ~e.gen)) ]
@@ -237,7 +237,8 @@ OnRet(m, e) ==
                THEN {<<"C06", "authentication failed although the device's reply proved knowledge of the key">>} ELSE {}
   IN [ m EXCEPT !.bad = @ \cup b1 \cup b2 \cup b3 \cup b4 \cup b5 \cup b5b \cup b6 \cup b7 \cup b8 \cup b9 \cup b10 \cup b11 \cup b12 \cup b13 \cup b14 \cup b15 \cup b16 \cup b16b \cup b17 \cup b18,
                 !.call = NoCall, !.stored = e.stored, !.prevFailed = ~ok, !.afterAuth = (cl.op = "auth" /\ ok),
-                !.hadGood = @ \/ e.stored = "good", !.okcr = IF cl.op = "auth" /\ ok /\ cl.cr # "cached" THEN cl.cr ELSE @,
+                !.hadGood = @ \/ e.stored = "good" \/ (cl.op = "auth" /\ cl.cr = "good" /\ cl.genuine),     \* (a client whose handshake with the right credentials was genuinely answered holds them - even if the call was cancelled afterwards)
+                !.okcr = IF cl.op = "auth" /\ ok /\ cl.cr # "cached" THEN cl.cr ELSE @,
                 !.conns = [c \in 1..Len(m.conns) |-> IF c = m.cur /\ e.r = "frames" THEN [m.conns[c] EXCEPT !.stray = 0, !.straybad = 0] ELSE m.conns[c]] ]
 
 (* a device-level operation (AirConditioner.refresh) built on one or more exchanges has returned:      *)
